@@ -9,6 +9,8 @@
     /repo on every run (gen/TmsData.v). *)
 From Coq Require Import ZArith QArith String List Bool.
 From Texel Require Import Tms.Json Tms.Model Tms.ProofsC14 Tms.ProofsC14b Tms.ProofsC14c Tms.F64Ratio.
+From Texel Require Import Tms.GoTms Tms.ProofsC14d.
+From Texel.Gen Require Import QuadTreeGen.
 From Texel.Gen Require Import ConstsGen TmsData CliGen.
 Import ListNotations.
 Open Scope Z_scope.
@@ -18,7 +20,9 @@ Open Scope Z_scope.
     - every matrix is square, has square tiles, an id that strconv.Atoi reads as its map key, no variable widths;
     - every two consecutive matrices have consecutive ids, the same point of origin (as float64 values), the same
       corner of origin, the same tile size, a doubled matrix size (uint arithmetic) and a cell size ratio that the
-      float64 test [lo <= previous/current <= hi] accepts, lo / hi the float64 images of the regenerated literals. *)
+      float64 test [lo <= previous/current <= hi] accepts, lo / hi the float64 images of the regenerated literals;
+    - (since the repair of F22) the first matrix has id 0, hence the ids are exactly 0, 1, .., n-1
+      ([iota n] = [map Z.of_nat (seq 0 n)]). *)
 Theorem C14_isQuadTree_sound : forall t, isQuadTree t = Accept ->
   let l := sorted_matrices t in
   (forall k m, In (k, m) l ->
@@ -30,7 +34,9 @@ Theorem C14_isQuadTree_sound : forall t, isQuadTree t = Accept ->
      tm_corner m2 = tm_corner m1 /\
      tm_tileHeight m2 = tm_tileHeight m1 /\
      tm_matrixHeight m2 = (2 * tm_matrixHeight m1) mod two64 /\
-     ratio_ok (tm_cellSize m1) (tm_cellSize m2) = true).
+     ratio_ok (tm_cellSize m1) (tm_cellSize m2) = true) /\
+  (forall k m, nth_error l 0 = Some (k, m) -> k = 0) /\
+  map fst l = iota (length l).
 Proof. exact isQuadTree_sound_lemma. Qed.
 Print Assumptions C14_isQuadTree_sound.
 
@@ -82,7 +88,8 @@ Proof. reflexivity. Qed.
 Print Assumptions C14_source_flow.
 
 (** The composite validation adds: some tile matrix is requested, every requested id is a tile matrix of the set,
-    and a tile matrix 0 exists. *)
+    and a tile matrix 0 exists (since the repair of F22 the latter also follows from IsQuadTree alone for a non-empty
+    set: C14_isQuadTree_sound). *)
 Theorem C14_validate_sound : forall t ids, validate t ids = Accept ->
   isQuadTree t = Accept /\ ids <> [] /\
   (forall i, In i ids -> exists m, find_tm i (t_matrices t) = Some m) /\
@@ -94,7 +101,11 @@ Print Assumptions C14_validate_sound.
     (never accepted, never a panic): matrix width, matrix height, tile width, tile height; with at least two
     matrices: the point of origin (any point whose float64 image differs) and the corner of origin; the cell size
     (any value whose ratio to the previous or to the next matrix fails the tolerance test); deleting a matrix that
-    is not the last one (being 0, or having a predecessor); adding variable matrix widths. *)
+    is not the last one (being 0, or having a predecessor); adding variable matrix widths.
+    Since the repair of F22 also: renumbering every tile matrix by ANY shift s <> 0 (map keys and id strings together:
+    [shift_ids], everything else stays consistent); deleting tile matrix 0 of a set with at least two matrices; removing
+    every tile matrix below any j with 0 < j <= k (the "first j matrices removed") -- each is rejected by IsQuadTree
+    itself, hence by the validation whatever is requested. *)
 Theorem C14_perturbation_rejected : forall t ids k m,
   validate t ids = Accept -> In (k, m) (t_matrices t) ->
   (forall v, v <> tm_matrixWidth m -> rejected (validate (update_tm t k (with_matrixWidth v)) ids)) /\
@@ -110,7 +121,12 @@ Theorem C14_perturbation_rejected : forall t ids k m,
      rejected (validate (update_tm t k (with_cellSize d)) ids)) /\
   (forall nm, In (k + 1, nm) (t_matrices t) -> (k = 0 \/ exists pm, In (k - 1, pm) (t_matrices t)) ->
      rejected (validate (delete_tm t k) ids)) /\
-  (forall v vs, rejected (validate (update_tm t k (with_vmw (v :: vs))) ids)).
+  (forall v vs, rejected (validate (update_tm t k (with_vmw (v :: vs))) ids)) /\
+  (forall s, s <> 0 -> rejected (isQuadTree (shift_ids t s)) /\ rejected (validate (shift_ids t s) ids)) /\
+  ((2 <= length (t_matrices t))%nat ->
+     rejected (isQuadTree (delete_tm t 0)) /\ rejected (validate (delete_tm t 0) ids)) /\
+  (forall j, 0 < j -> j <= k ->
+     rejected (isQuadTree (remove_below t j)) /\ rejected (validate (remove_below t j) ids)).
 Proof. exact perturbation_rejected_lemma. Qed.
 Print Assumptions C14_perturbation_rejected.
 
@@ -161,6 +177,22 @@ Theorem C14_regression_F12 : exists t, decodeTMS gen_doc_WebMercatorQuad = Ok t 
 Proof. exact validate_ids_regression. Qed.
 Print Assumptions C14_regression_F12.
 
+(** regression for F22 (repaired): NetherlandsRDNewQuad with every tile matrix id lowered by one (ids -1 .. 15, tile matrix
+    0 being the 2x2 one) is rejected by the model, by the regenerated IsQuadTree and by the validation for the requests
+    [0] and [5], with the error number 4 = "tile matrix IDs should be a range with step 1 starting with 0"; so is every
+    other renumbering of it.  (It used to be accepted: C14_example_before_F22.) *)
+Theorem C14_regression_F22 : exists t,
+  decodeTMS gen_doc_NetherlandsRDNewQuad = Ok t /\
+  validate t [0] = Accept /\ validate t [5] = Accept /\
+  map fst (sorted_matrices (shift_ids t (-1))) = [-1; 0; 1; 2; 3; 4; 5; 6; 7; 8; 9; 10; 11; 12; 13; 14; 15] /\
+  isQuadTree (shift_ids t (-1)) = Reject 4 /\
+  gen_isQuadTree (shift_ids t (-1)) = Reject 4 /\
+  validate (shift_ids t (-1)) [0] = Reject 4 /\ validate (shift_ids t (-1)) [5] = Reject 4 /\
+  nth_error gen_quadtree_checks 4 = Some "tile matrix IDs should be a range with step 1 starting with 0"%string /\
+  (forall s, s <> 0 -> rejected (validate (shift_ids t s) [0])).
+Proof. exact regression_F22_lemma. Qed.
+Print Assumptions C14_regression_F22.
+
 (** the level bound is needed for arbitrary records (outside the property's quantifier: built-in sets have at most
     25 levels): a 60-level quadtree is accepted up to id 51 and panics at 52 *)
 Theorem C14_validate_total_level_bound_needed :
@@ -199,15 +231,29 @@ Example C14_example_perturbation : exists t m,
   validate (update_tm t 5 (with_matrixWidth 16)) [16] = Reject 0 /\
   validate (update_tm t 5 (with_origin (Dec (-28540092) (-2), Dec 90340192 (-2)))) [16] = Reject 5 /\
   validate (update_tm t 5 (with_cellSize (Dec 1058 (-1)))) [16] = Reject 9 /\
-  validate (delete_tm t 5) [16] = Reject 4 /\ validate (delete_tm t 0) [16] = Reject 11 /\
+  validate (delete_tm t 5) [16] = Reject 4 /\ validate (delete_tm t 0) [16] = Reject 4 /\
+  (exists n, validate (shift_ids t 3) [16] = Reject n) /\ (exists n, validate (remove_below t 4) [16] = Reject n) /\
   validate (delete_tm t 16) [15] = Accept.
 Proof.
   unfold rd. eexists. eexists. split; [vm_compute; reflexivity|].
   split; [vm_compute; reflexivity|]. split; [vm_compute; do 5 right; left; reflexivity|].
   split; [vm_compute; repeat constructor|].
   split; [vm_compute; reflexivity|]. split; [vm_compute; reflexivity|]. split; [vm_compute; reflexivity|].
-  split; [vm_compute; reflexivity|]. split; [vm_compute; reflexivity|]. vm_compute; reflexivity.
+  split; [vm_compute; reflexivity|]. split; [vm_compute; reflexivity|].
+  split; [eexists; vm_compute; reflexivity|]. split; [eexists; vm_compute; reflexivity|]. vm_compute; reflexivity.
 Qed.
+
+(** with the reading of IsQuadTree BEFORE the repair of F22 ([validate_before_F22] of Tms/ProofsC14d.v: the same
+    decision procedure without the test of the first id) the renumbered NetherlandsRDNewQuad was accepted for the
+    requests [0] and [5]; its tile matrix 0 is 2x2 and the pixel size for tile matrix 0 is its cell size / 8, not / 16 *)
+Example C14_example_before_F22 : exists t m0 p,
+  decodeTMS gen_doc_NetherlandsRDNewQuad = Ok t /\
+  validate_before_F22 (shift_ids t (-1)) [0] = Accept /\ validate_before_F22 (shift_ids t (-1)) [5] = Accept /\
+  find_tm 0 (t_matrices (shift_ids t (-1))) = Some m0 /\
+  tm_matrixWidth m0 = 2 /\ tm_matrixHeight m0 = 2 /\
+  pixelSize (shift_ids t (-1)) 0 = Some p /\
+  (p == dq (tm_cellSize m0) / inject_Z 8)%Q /\ ~ (p == dq (tm_cellSize m0) / inject_Z 16)%Q.
+Proof. exact before_F22_lemma. Qed.
 
 (** the hypotheses of the pixel size theorem and of the totality theorem hold for NetherlandsRDNewQuad, matrix 14, k = 8 *)
 Example C14_example_pixel_size : exists t root m,
@@ -226,13 +272,15 @@ Proof.
 Qed.
 
 (** ** Source tie: pointindex.IsQuadTree itself *)
-From Texel Require Import Tms.GoTms Tms.ProofsGenQuadTree.
-From Texel.Gen Require Import QuadTreeGen.
+From Texel Require Import Tms.ProofsGenQuadTree.
 
 (** REGENERATED from /repo's pointindex/pointindex.go on every run (gen/QuadTreeGen.v, translator/quadtree.go), statement
     by statement: the body of IsQuadTree -- the declarations of previousTMID / previousTM, the range loop and its state,
-    the lookup of the tile matrix, every check (operands, operators, order), every return and the number of its error
-    (n-th errors.New in source order = Reject n; the error of strconv.Atoi = Reject 10), the test previousTM != nil,
+    the lookup of the tile matrix, every check (operands, operators, order; among them, since the repair of F22,
+    `previousTM == nil && tmID != 0` -- undoing that repair changes [gen_isQuadTree] and breaks this theorem), every
+    return and the number of its error (errors.New with the n-th DISTINCT message literal in source order = Reject n: the
+    message "tile matrix IDs should be a range with step 1 starting with 0" is returned from two places; the error of
+    strconv.Atoi = Reject 10), the test previousTM != nil,
     every pointer dereference (nil = the panic verdict), previousTMID+1 in 64-bit arithmetic, 2*MatrixHeight in uint
     arithmetic, and the two assignments that end the body.
     STAYS MODELLED (the translator maps it to a function of the model only after checking the exact shape of the call in
@@ -246,8 +294,9 @@ Theorem C14_source_tie_isQuadTree : forall t, gen_isQuadTree t = isQuadTree t.
 Proof. exact gen_isQuadTree_eq. Qed.
 Print Assumptions C14_source_tie_isQuadTree.
 
-(** the numbering of the verdicts: the messages of the errors.New calls that the translation numbered are the regenerated
-    list [gen_quadtree_checks] the model's [Reject n] refers to, and the Atoi error (10) is the first number after them *)
+(** the numbering of the verdicts: the distinct messages of the errors.New calls that the translation numbered are the
+    regenerated list [gen_quadtree_checks] the model's [Reject n] refers to, and the Atoi error (10) is the first number
+    after them *)
 Theorem C14_source_tie_isQuadTree_checks :
   gen_isQuadTree_errors = gen_quadtree_checks /\ List.length gen_isQuadTree_errors = atoi_error.
 Proof. exact gen_isQuadTree_errors_eq. Qed.
